@@ -130,7 +130,7 @@ def pyDigestCore (cfg : Cfg) (p : PyS) (n : Nat) (viaAuto : Bool) : PyS × PyDig
   let r := digClosed cfg (p.queue.take n) ({ p with queue := p.queue.drop n }, [], [], 0)
   ({ r.1 with bin := dictUpdate r.1.bin r.2.1
               autoLogged := if viaAuto then r.1.autoLogged + r.2.2.1.length else r.1.autoLogged },
-   ⟨decide (r.2.2.1.length = 0), r.2.1, r.2.2.2, r.2.2.1⟩)
+   ⟨r.2.2.1.isEmpty, r.2.1, r.2.2.2, r.2.2.1⟩)
 
 theorem pyDigestCore_conc (cfg : Cfg) (s : State) (n : Nat) (via : Bool) :
     pyDigestCore cfg (conc s) n via =
@@ -191,6 +191,24 @@ theorem pyAutophagy_conc (cfg : Cfg) (s : State) :
 
 /-! ### Python slices, truthiness, the raising filter -/
 
+/-- normal forms for the ways of writing "no errors" (`len(errors) == 0`, `not errors`, `errors == []`) -/
+theorem decide_nil_unit (l : List Unit) : decide (l = []) = l.isEmpty := by cases l <;> rfl
+theorem decide_len0_unit (l : List Unit) : decide (l.length = 0) = l.isEmpty := by cases l <;> rfl
+
+/-- … and for a negated comparison (`not (a >= b)` for `a < b`) -/
+theorem not_decide_le (a b : Int) : (!decide (a ≤ b)) = decide (b < a) := by
+  by_cases h : a ≤ b
+  · have : ¬ b < a := by omega
+    simp [h, this]
+  · have : b < a := by omega
+    simp [h, this]
+theorem not_decide_lt (a b : Int) : (!decide (a < b)) = decide (b ≤ a) := by
+  by_cases h : a < b
+  · have : ¬ b ≤ a := by omega
+    simp [h, this]
+  · have : b ≤ a := by omega
+    simp [h, this]
+
 theorem pySliceTo_truthy {α : Type} (q : List α) (k : Option Int) (h : pyTruthyOInt k = true) :
     pySliceTo q (k.getD 0) = q.take (sliceCount q.length k) := by
   cases k with
@@ -246,6 +264,118 @@ theorem length_sub_filter (q : List Item) (p : Item → Bool) :
     ((q.length : Nat) : Int) - (((q.filter p).length : Nat) : Int) = (((q.filter fun it => !p it).length : Nat) : Int) := by
   have := length_filter_split p q
   omega
+
+/-! ### the toxic callback for ANY configuration (custom toxic digester, no callback, …) -/
+
+/-- for ANY configuration: an item's `on_toxic` count is the number of times it was processed if processing it calls
+    the callback (`callsToxic`), zero otherwise -/
+def ToxInvG (cfg : Cfg) (s : State) : Prop :=
+  ∀ it, s.toxicLog.count it =
+    if callsToxic cfg it then s.gDigested.count it + s.gErrored.count it + s.gEmDropped.count it else 0
+
+theorem digestCore_toxG (cfg : Cfg) (s : State) (n : Nat) (via : Bool) (h : ToxInvG cfg s) :
+    ToxInvG cfg (digestCore cfg s n via).1 := by
+  intro it
+  have h0 := h it
+  have h2 := count_filter_split (succeeds cfg) (s.queue.take n) it
+  have h3 := count_filter_ite (callsToxic cfg) (s.queue.take n) it
+  simp only [digestCore, List.count_append]
+  cases ht : callsToxic cfg it
+  · simp [ht] at h0 h3 ⊢
+    omega
+  · simp [ht] at h0 h3 ⊢
+    omega
+
+theorem emergency_toxG (cfg : Cfg) (s : State) (h : ToxInvG cfg s) : ToxInvG cfg (emergency cfg s) := by
+  unfold emergency
+  simp only
+  split
+  · exact h
+  · intro it
+    have h0 := h it
+    have h2 := count_filter_split (succeeds cfg) (s.queue.take (s.queue.length / 2)) it
+    have h3 := count_filter_ite (callsToxic cfg) (s.queue.take (s.queue.length / 2)) it
+    simp only [List.count_append]
+    cases ht : callsToxic cfg it
+    · simp [ht] at h0 h3 ⊢
+      omega
+    · simp [ht] at h0 h3 ⊢
+      omega
+
+theorem step_toxG (cfg : Cfg) (s : State) (op : Op) (h : ToxInvG cfg s) : ToxInvG cfg (step cfg s op).1 := by
+  unfold step
+  split
+  · exact h
+  · cases op with
+    | ingest id ty c st =>
+      have he : ToxInvG cfg (enqueue cfg s id ty c st) := by
+        unfold enqueue
+        simp only
+        split
+        · exact emergency_toxG cfg s h
+        · exact h
+      unfold ingest
+      simp only
+      split
+      · split
+        · exact digestCore_toxG cfg _ _ _ he
+        · exact he
+      · exact he
+    | digest k => exact digestCore_toxG cfg _ _ _ h
+    | autophagy => simp only [autophagy]; split <;> exact h
+    | advance us => exact h
+    | clearBin => exact h
+
+theorem run_toxG (cfg : Cfg) : ∀ (ops : List Op) (s : State), ToxInvG cfg s → ToxInvG cfg (run cfg s ops) := by
+  intro ops
+  induction ops with
+  | nil => intro s h; exact h
+  | cons op ops ih => intro s h; exact ih _ (step_toxG cfg s op h)
+
+theorem callsToxic_true {cfg : Cfg} {it : Item} (h : callsToxic cfg it = true) :
+    it.ty = .toxic ∧ cfg.toxDig = none ∧ cfg.onToxic.isSome = true := by
+  unfold callsToxic digestOne at h
+  by_cases ht : it.ty = .toxic
+  · simp only [ht, if_true] at h
+    cases htd : cfg.toxDig with
+    | some d => simp [htd] at h
+    | none =>
+      cases hot : cfg.onToxic with
+      | none => simp [htd, hot] at h
+      | some f => exact ⟨ht, rfl, rfl⟩
+  · simp [ht] at h
+
+/-! ### histories in which the public settings are re-assigned between calls -/
+
+/-- a history whose every call runs under its own configuration (`max_queue_size`, `auto_digest_threshold`,
+    `retention_period`, `on_toxic` are public attributes and the digester table is a plain dict) -/
+def runC : State → List (Cfg × Op) → State
+  | s, [] => s
+  | s, (cfg, op) :: r => runC (step cfg s op).1 r
+
+theorem runC_acct : ∀ (h : List (Cfg × Op)) (s : State), Acct s → Acct (runC s h) := by
+  intro h
+  induction h with
+  | nil => intro s hs; exact hs
+  | cons co r ih => intro s hs; exact ih _ (step_acct co.1 s co.2 hs)
+
+theorem runC_pending : ∀ (h : List (Cfg × Op)) (s : State), (runC s h).gPending = s.gPending := by
+  intro h
+  induction h with
+  | nil => intro s; rfl
+  | cons co r ih => intro s; exact (ih _).trans (step_pending co.1 s co.2)
+
+theorem runC_queue_bound (m : Nat) (h2 : 2 ≤ m) : ∀ (h : List (Cfg × Op)) (s : State), (∀ co ∈ h, co.1.maxQ = m) →
+    s.queue.length ≤ m → (runC s h).queue.length ≤ m := by
+  intro h
+  induction h with
+  | nil => intro s _ hq; exact hq
+  | cons co r ih =>
+    intro s hm hq
+    have hco : co.1.maxQ = m := hm co (by simp)
+    refine ih _ (fun c hc => hm c (by simp [hc])) ?_
+    have := step_queue_bound co.1 (by omega) s co.2 (by omega)
+    omega
 
 /-! ### return values, and a history through concrete steps -/
 
